@@ -158,15 +158,32 @@ CanStart == pc = "build" /\ Budget(iv) /\ iv.ready # {} /\ (Cardinality(iv.runni
 
 ContentOf(s) == NewC(s, [f \in DOMAIN disk |-> IF disk[f].m > 0 THEN disk[f].c ELSE Missing(f)])
 
+\* -- the loop's steps as functions of the invocation state (shared with the trace specification ImplDynTrace) --------
+Fuel == 2 * Len(g.stmts) + 2
+\* a phony statement in the ready queue is finished on the spot
+StartPhony(v, i) == FinishOK([v EXCEPT !.ready = @ \ {i}], i, Fuel)
+\* a command is handed to the runner: c = what it will write, t = start time
+StartCmd(v, i, c, t) == [v EXCEPT !.ready = @ \ {i}, !.running = @ \cup {[i |-> i, c |-> c, t |-> t]},
+                                   !.started = Append(@, i), !.startDone = Append(@, v.doneOK)]
+\* Plan::EdgeFinished(kEdgeFailed): pool release only
+FinishFail(v, r) == Retrieve([v EXCEPT !.running = @ \ {r}, !.sched = @ \ {r.i}, !.failed = @ \cup {r.i}, !.nfail = @ + 1, !.codes = @ \cup {1}], St(g, r.i).pool)
+\* FinishCommand of a successful command whose outputs have the mtimes nm afterwards: restat check against the mtimes
+\* cached by the scan, Plan::CleanNode for unchanged outputs, then Plan::EdgeFinished
+CleanedOuts(v, i, nm) == LET s == St(g, i) IN {o \in ToS(s.outs \o s.iouts) : Restat(s) /\ nm[o] = v.st.nmt[o]}
+FinishSucc(v, r, cleaned) ==
+  LET RECURSIVE CleanAll(_, _)
+      CleanAll(w, q) == IF q = {} THEN w ELSE LET o == CHOOSE x \in q : TRUE IN CleanAll(CleanNode(w, o, Fuel), q \ {o})
+      v1 == CleanAll([v EXCEPT !.running = @ \ {r}], cleaned)
+  IN FinishOK([v1 EXCEPT !.doneOK = @ \cup {r.i}], r.i, Fuel)
+
 Start(i) ==
   /\ pc = "build" /\ Budget(iv) /\ i \in iv.ready /\ clock < MaxClock
   /\ LET s == St(g, i) IN
      IF s.phony
-     THEN /\ iv' = FinishOK([iv EXCEPT !.ready = @ \ {i}], i, 2 * Len(g.stmts) + 2)
+     THEN /\ iv' = StartPhony(iv, i)
           /\ UNCHANGED <<clock>>
      ELSE /\ Cardinality(iv.running) < iv.j
-          /\ iv' = [iv EXCEPT !.ready = @ \ {i}, !.running = @ \cup {[i |-> i, c |-> ContentOf(s), t |-> clock + 1]},
-                              !.started = Append(@, i), !.startDone = Append(@, iv.doneOK)]
+          /\ iv' = StartCmd(iv, i, ContentOf(s), clock + 1)
           /\ clock' = clock + 1
   /\ UNCHANGED <<raw, vers, disk, blog, dlog, dfile, L, F, pc, ninv, nenv, kf, last>>
 
@@ -183,20 +200,13 @@ Finish(r, ok) ==
                                 ELSE Write([d EXCEPT ![o] = [m |-> c + 1, c |-> r.c]], k + 1, c + 1)
          wr == IF ok THEN Write(disk, 1, clock) ELSE [d |-> disk, c |-> clock]
          d1 == wr.d
-         v0 == [iv EXCEPT !.running = @ \ {r}]
      IN IF ~ok
-        THEN \* Plan::EdgeFinished(kEdgeFailed): pool release only
-             /\ iv' = Retrieve([v0 EXCEPT !.sched = @ \ {i}, !.failed = @ \cup {i}, !.nfail = @ + 1, !.codes = @ \cup {1}], s.pool)
+        THEN /\ iv' = FinishFail(iv, r)
              /\ F' = F \cup {i}
              /\ UNCHANGED <<disk, clock, blog, dlog, dfile, L>>
-        ELSE LET \* FinishCommand: restat check against the mtimes cached by the scan
-                 cleaned == {o \in ToS(outs) : Restat(s) /\ d1[o].m = iv.st.nmt[o]}
-                 RECURSIVE CleanAll(_, _)
-                 CleanAll(v, q) == IF q = {} THEN v ELSE LET o == CHOOSE x \in q : TRUE IN CleanAll(CleanNode(v, o, 2 * Len(g.stmts) + 2), q \ {o})
-                 v1 == CleanAll(v0, cleaned)
+        ELSE LET cleaned == CleanedOuts(iv, i, [o \in DOMAIN d1 |-> d1[o].m])
                  recm == IF (Restat(s) \/ s.gen) /\ cleaned = {} THEN MaxOf({r.t} \cup {d1[o].m : o \in ToS(outs)}) ELSE r.t
-                 v2 == FinishOK([v1 EXCEPT !.doneOK = @ \cup {i}], i, 2 * Len(g.stmts) + 2)
-             IN /\ iv' = v2
+             IN /\ iv' = FinishSucc(iv, r, cleaned)
                 /\ disk' = d1 /\ clock' = wr.c + 1
                 /\ blog' = [o \in DOMAIN blog \cup ToS(outs) |-> IF o \in ToS(outs) THEN [m |-> recm, vs |-> s.vstr] ELSE blog[o]]
                 /\ dlog' = IF s.deps \in {"gcc", "msvc"} THEN [o \in DOMAIN dlog \cup {outs[1]} |-> IF o = outs[1] THEN [m |-> d1[outs[1]].m, d |-> s.hdrs] ELSE dlog[o]] ELSE dlog
@@ -205,11 +215,13 @@ Finish(r, ok) ==
                 /\ F' = F \ {i}
   /\ UNCHANGED <<raw, vers, pc, ninv, nenv, kf, last>>
 
+\* how the loop ends
+ExitMsg(v) == IF ~MoreToDo(v) THEN "ok" ELSE IF ~Budget(v) THEN "failed" ELSE IF v.nfail > 0 THEN "noprogress" ELSE "stuck"
 \* Builder::Build returns
 Exit ==
   /\ pc = "build" /\ iv.running = {} /\ ~CanStart
   /\ LET ok == ~MoreToDo(iv)
-         msg == IF ok THEN "ok" ELSE IF ~Budget(iv) THEN "failed" ELSE IF iv.nfail > 0 THEN "noprogress" ELSE "stuck"
+         msg == ExitMsg(iv)
      IN /\ iv' = [iv EXCEPT !.code = IF ok THEN 0 ELSE (IF iv.codes = {} THEN 1 ELSE 1), !.msg = msg]
         /\ last' = [ok |-> ok, targets |-> iv.targets]
   /\ pc' = "idle"
